@@ -401,8 +401,16 @@ open Glom Glom.Mut
 /-- the `missing` argument -/
 inductive Missing where
   | none
-  | factory (kind : String)    -- "dict" | "list" | "obj" | "tuple" | "raise"
+  | factory (kind : String)    -- "dict" | "list" | "obj" | "tuple" | "int" | "str" | "none" | "raise"
   deriving DecidableEq, Repr
+
+/-- what a factory that returns a non-container returns (`int` → `0`, `str` → `''`,
+    `lambda: None` → `None`): no object is created -/
+def freshScalar (kind : String) : Option Val :=
+  if kind == "int" then some (.int 0)
+  else if kind == "str" then some (.str "")
+  else if kind == "none" then some .none
+  else none
 
 /-- the `val` argument: a literal, or a T-expression / `Spec(path)` evaluated against the target -/
 inductive ValSpec where
@@ -422,7 +430,9 @@ def callFactory (kind : String) (st : St) : St × Except MErr Val :=
   else if kind == "list" then mk (.list "list" [])
   else if kind == "obj" then mk (.inst "Obj" [])
   else if kind == "tuple" then mk (.tuple "tuple" [])
-  else (st1, .error (.raised (exc "RuntimeError")))
+  else match freshScalar kind with
+    | some c => (st1, .ok c)
+    | none => (st1, .error (.raised (exc "RuntimeError")))
 
 /-- does arg mode rebuild this value?  (`_ArgValuator.mode` copies exact list / dict / tuple /
     set / frozenset objects; a *literal* of that kind as `val` is outside this model — C08) -/
